@@ -24,6 +24,7 @@ class Ob:
         self.params = params
         self.group = group or name.split("/")[0]
         self.desc = desc
+        self.smt2_hint = None
 
 
 class Ctx:
@@ -68,6 +69,10 @@ class Ctx:
             fs += ABS.all_cons(congruence)
         fs.append(z3.Not(claim))
         ob = Ob(name, "prove", self._text(fs), family, params, group, desc)
+        if abs_cons:
+            # hint query for the ground-instantiation engine: abstraction atoms as free reals (a model is only a
+            # candidate and must reproduce in the concrete replay)
+            ob.smt2_hint = self._text(list(hyps) + [z3.Not(claim)])
         self.obs.append(ob)
         return ob
 
@@ -167,6 +172,28 @@ def start_concrete_bg(pid, jobs):
             return box.get("r", [])
 
     return H()
+
+
+def model_float(v, default=None):
+    """z3/cvc5 model value string -> float ('-3/2', '0.25', '(- 1.5)', '1.41?' ...)."""
+    if v is None:
+        return default
+    t = str(v).replace("?", "").replace("(", " ").replace(")", " ").split()
+    try:
+        neg = False
+        if t and t[0] == "-":
+            neg = True
+            t = t[1:]
+        if len(t) == 3 and t[0] == "/":
+            x = float(t[1]) / float(t[2])
+        elif len(t) == 1 and "/" in t[0]:
+            a, b = t[0].split("/")
+            x = float(a) / float(b)
+        else:
+            x = float(t[0])
+        return -x if neg else x
+    except (ValueError, IndexError, ZeroDivisionError):
+        return default
 
 
 def load_known():
@@ -279,6 +306,28 @@ def finish(ctx, module):
                     violations.append((name, path, r))
             else:
                 inconclusive.append("replay %s did not reproduce (gap %.3g): encoding or stub suspect" % (name, r.get("gap", 0.0)))
+    unknown_keys = set()
+    for ob in ctx.obs:
+        if ob.kind == "prove" and ob.verdict not in ("unsat", "sat"):
+            unknown_keys.add(json.dumps([ob.family, ob.params], sort_keys=True, default=str))
+    for name, family, params, r in list(conc_bad):
+        k = json.dumps([family, params], sort_keys=True, default=str)
+        key = r.get("key") or name
+        if k in unknown_keys and not any((rr.get("key") or n) == key for n, _, rr in violations):
+            # the solver could not decide the matching obligations, but the concrete differential run of exactly this
+            # configuration on the JIT build disagrees with its oracle: a reproduced counterexample
+            kf = [x for x in known if x.get("status") == "known" and x.get("key") == key]
+            if kf:
+                if not any(kk == key for kk, _ in known_hits):
+                    known_hits.append((key, kf[0].get("what", "")))
+            else:
+                rec = {"property": pid, "obligation": name, "key": key, "family": family, "params": params, "what": "solver inconclusive on the matching obligations; counterexample found by the concrete differential replay of the same configuration", "observed": r}
+                h = hashlib.sha256(json.dumps(rec, sort_keys=True, default=str).encode()).hexdigest()[:10]
+                path = os.path.join(ROOT, "replays", "%s-%s.json" % (pid, h))
+                with open(path, "w") as f:
+                    json.dump(rec, f, indent=1, default=str)
+                violations.append((name, path, r))
+            conc_bad.remove((name, family, params, r))
     for name, family, params, r in conc_bad:
         # the compiled build disagrees with its oracle where the encoding found nothing to report
         if not any(v[0] == name for v in violations):
